@@ -705,6 +705,10 @@ func (db *RockDB) zRemRangeBytes(ts int64, key []byte, keyInfo collVerKeyInfo, o
 		// no data to be deleted, avoid iterator data
 		return 0, nil
 	}
+	// the members of an expired zset are gone for every command
+	if keyInfo.IsNotExistOrExpired() {
+		return 0, nil
+	}
 	// if count >= total size , remove all
 	if offset == 0 {
 		if err == nil && int64(count) >= total {
@@ -1120,6 +1124,9 @@ func (db *RockDB) internalZRemRangeByLex(ts int64, key []byte, min []byte, max [
 	keyInfo, err := db.getZSetForRangeWithMinMax(ts, key, min, max, false)
 	if err != nil {
 		return 0, err
+	}
+	if keyInfo.IsNotExistOrExpired() {
+		return 0, nil
 	}
 
 	it, err := db.NewDBRangeIterator(keyInfo.RangeStart, keyInfo.RangeEnd, rangeType, false)
